@@ -192,10 +192,32 @@ func (w *World) ApplyLedgerOp(lo *LedgerOp) {
 // dependency's (ledger) store over verbatim: a chain upgrade / genesis round trip in the middle of a
 // history. The pending-owner slot has no genesis field (known finding F3): the model follows the chain
 // there and the loss is counted.
-func (w *World) Restart() error {
+// Restart takes the chain through a genesis round trip. drop names optional scalar fields
+// ("maxbody", "nextnonce", "threshold") that are left out of the genesis file when the exported value
+// equals the documented default (8000, 0, 1): the file then says the same thing in fewer words.
+func (w *World) Restart(drop ...string) error {
 	raw, err := w.Chain.ExportJSON()
 	if err != nil {
 		return err
+	}
+	if len(drop) > 0 {
+		var gs types.GenesisState
+		if err := chain.Codec().UnmarshalJSON(raw, &gs); err != nil {
+			return err
+		}
+		for _, d := range drop {
+			switch {
+			case d == "maxbody" && gs.MaxMessageBodySize != nil && gs.MaxMessageBodySize.Amount == 8000:
+				gs.MaxMessageBodySize = nil
+			case d == "nextnonce" && gs.NextAvailableNonce != nil && gs.NextAvailableNonce.Nonce == 0 && gs.NextAvailableNonce.SourceDomain == 0:
+				gs.NextAvailableNonce = nil
+			case d == "threshold" && gs.SignatureThreshold != nil && gs.SignatureThreshold.Amount == 1:
+				gs.SignatureThreshold = nil
+			}
+		}
+		if raw, err = chain.Codec().MarshalJSON(&gs); err != nil {
+			return err
+		}
 	}
 	dump := w.Chain.RawKV(w.Chain.LedgKey)
 	c2, err := chain.New(chain.Genesis{Cctp: raw, Ledger: chain.LedgerGenesis{MintingDenom: w.Model.L.Denom}})
@@ -239,7 +261,11 @@ func (w *World) ExecBlock(ops []*Op) []*Step {
 		steps = append(steps, st)
 		switch op.Kind {
 		case "restart":
-			if err := w.Restart(); err != nil {
+			var drop []string
+			if d := op.Meta["drop"]; d != "" {
+				drop = strings.Split(d, ",")
+			}
+			if err := w.Restart(drop...); err != nil {
 				panic(fmt.Errorf("restart: %w", err))
 			}
 		case "ledger":
